@@ -142,7 +142,9 @@ func TestC15(t *testing.T) {
 			b := s.Get([]byte(key))
 			return b, b != nil
 		}
-		addrs := []string{KeyAcc(1).Addr.String(), KeyAcc(2).Addr.String(), "someone", ""}
+		// signers: two plain accounts, a continuous vesting account, a module account (the kinds of accounts other
+		// modules put on the chain), a string that is no address, the empty string
+		addrs := []string{KeyAcc(1).Addr.String(), KeyAcc(2).Addr.String(), LockedVestingAddr().String(), ModuleAddr("gov").String(), "someone", ""}
 		refIDs := []string{strings.Repeat("ab", 32), strings.Repeat("cd", 32), strings.Repeat("0", 64), "short"}
 		links := []string{"link-1", "link-2", "", sha256hex("doc")}
 		modelLinks := map[string]string{}   // payload-link key -> first published value
